@@ -1505,6 +1505,29 @@ def install_models(I):
     M["core::iter::traits::iterator::Iterator::fold"] = fold_sum
 
 
+    def borrow_m(I, a, f):
+        x = a[0]
+        # <&T as Borrow<T>>::borrow(&&T) -> &T : one level of reference is peeled off
+        if isinstance(x, Ptr) and isinstance(x.get(), Ptr):
+            return x.get()
+        return x
+    M["core::borrow::Borrow::borrow"] = borrow_m
+    M["core::borrow::BorrowMut::borrow_mut"] = borrow_m
+    M["core::convert::AsRef::as_ref"] = lambda I, a, f: a[0]
+    M["core::convert::AsMut::as_mut"] = lambda I, a, f: a[0]
+
+    def array_from_fn(I, a, f):
+        ga = getattr(f, "ga", None) or []
+        n = None
+        if len(ga) >= 2 and re.match(r"^\d+$", str(ga[1])):
+            n = int(ga[1])
+        elif len(ga) >= 2:
+            n = I.const_generic(str(ga[1])) if hasattr(I, "const_generic") else None
+        if n is None:
+            raise Unanalysable("core::array::from_fn with a symbolic length %r" % (ga,))
+        return Agg([I.call_closure(a[0], [i]) for i in range(n)], "array")
+    M["core::array::from_fn"] = array_from_fn
+
     # ---- standard-library pack: collections, iterator adaptors, Option / Result combinators, integer conversions ----------
     def vec_of(x):
         v = deref(x)
@@ -1547,7 +1570,13 @@ def install_models(I):
 
     def vec_extend(I, a, f):
         v = vec_of(a[0])
-        v.items.extend(drain(as_iter(I, a[1])))
+        xs = drain(as_iter(I, a[1]))
+        # Extend<&T> for Vec<T> (T: Copy) copies the referenced elements
+        ga = getattr(f, "ga", None) or []
+        by_ref = "Extend<&" in (getattr(f, "xid", "") or "") or (len(ga) >= 2 and str(ga[1]).startswith("&") and not str(ga[0]).startswith("std::vec::Vec<&"))
+        if by_ref:
+            xs = [clone_val(deref(x)) for x in xs]
+        v.items.extend(xs)
         return Agg([], "tuple")
     M["alloc::vec::Vec::extend"] = vec_extend
     S.append(("Vec@Extend::extend", vec_extend))
